@@ -138,7 +138,9 @@ func (rw *rewriter) file(f *ast.File) {
 			if (inQuery || inFilePkg) && st.X != nil {
 				if t := rw.info.TypeOf(st.X); t == nil {
 					// a loop produced by this rewriter
-				} else if _, ok := t.Underlying().(*types.Map); ok {
+				} else if mt, ok := t.Underlying().(*types.Map); ok && !types.IsInterface(mt.Key()) {
+					// (a map keyed by an interface type is left to Go's own order: the generic helper needs a strictly
+					// comparable key under the language version of csvq's go.mod)
 					if r := rw.mapRange(st); r != nil {
 						st.Body.List = walkBlock(st.Body.List)
 						return r
